@@ -9,6 +9,8 @@
 import Nlmodel.Proofs.Lemmas.Lexer
 import Nlmodel.Model.Pipeline
 import Nlmodel.Proofs.Lemmas.VMErrors
+import Nlmodel.Proofs.Lemmas.ParseFuel
+import Nlmodel.Proofs.Lemmas.NoFuel
 namespace Nl
 namespace C05
 
@@ -70,6 +72,72 @@ theorem C05_run_error_kinds (c : Code) (n : Nat) (s s' : VM) (e : Err) (h : runS
     | halt v s1 => rw [hs] at h; simp at h
     | error e1 s1 => rw [hs] at h; simp only [Outcome.error.injEq] at h; obtain ⟨h1, _⟩ := h; subst h1; exact C05_vm_error_kinds c s s1 e1 hs
     | fault site => rw [hs] at h; simp at h
+
+/-- THE PARSER'S FUEL IS SUFFICIENT: every function of the recursive-descent/Pratt parser model, called
+    on `n` remaining tokens with fuel at least `3 n + c` (c ≤ 4, one constant per function), never
+    runs out of fuel and consumes tokens on success (`PF.all`: mutual induction over all seven
+    functions, every branch); `parse` supplies `4 n + 16`.  So the model-only error `FUEL` is never
+    the answer of the front end: termination of the parser is not an artefact of the fuel, for every
+    token list and every text. -/
+theorem C05_parse_fuel_sufficient (ts : List Token) : parseTokens ts ≠ .error .fuel := PF.parseTokens_no_fuel ts
+
+theorem C05_parse_text_never_fuel (cc : CharClass) (src : Text) : parse cc src ≠ .error .fuel := PF.parseTokens_no_fuel _
+
+/-- each parser function on its own (the statement the induction proves) -/
+theorem C05_parser_functions_total (f : Nat) : PF.All f := PF.all f
+
+/-- THE WHOLE PIPELINE IS TOTAL WITHOUT THE FUEL SHOWING: for every text and every instruction budget,
+    `eval` on the model answers with a value, a documented error (syntax, reference, type, index,
+    argument) after some output, "budget exhausted", or a machine fault (excluded for compiled
+    programs by C02) — never with the model-only `FUEL` error: tokenizer (`C05_lex_total`), parser
+    (`C05_parse_fuel_sufficient`), resolver (`NF.rSs`: structural), code generator (only syntax errors
+    at the operand-width limits) and machine (`C05_run_error_kinds`). -/
+theorem C05_eval_never_fuel (cc : CharClass) (budget : Nat) (src : Text) (out : List Text) :
+    evalText cc budget src ≠ .error .fuel out := by
+  unfold evalText
+  cases hp : parse cc src with
+  | error e =>
+    simp only
+    intro h; injection h with h1 _
+    exact C05_parse_text_never_fuel cc src (by rw [hp, h1])
+  | ok ast =>
+    simp only
+    cases hc : compileProgram ast with
+    | error e =>
+      simp only
+      intro h; injection h with h1 _
+      subst h1
+      unfold compileProgram at hc
+      cases hr : resolveProgram ast with
+      | error e' =>
+        rw [hr] at hc; simp only at hc; injection hc with hc; subst hc
+        unfold resolveProgram at hr
+        split at hr
+        · cases hr
+        · rename_i e2 he; injection hr with hr; subst hr; exact NF.rSs _ _ _ he rfl
+      | ok r =>
+        rw [hr] at hc; simp only at hc
+        unfold compileR at hc
+        simp only at hc
+        split at hc
+        · cases hc
+        · rename_i e2 he
+          split at he
+          · cases he
+          · injection he with he; subst he; injection hc with hc; cases hc
+    | ok q =>
+      obtain ⟨r, bc⟩ := q
+      simp only
+      unfold VM.run
+      cases hrun : runSteps bc.code budget (VM.start {} bc) with
+      | value v s => simp
+      | error e s =>
+        simp only
+        intro h; injection h with h1 _
+        subst h1
+        rcases C05_run_error_kinds _ _ _ _ _ hrun with h | h | h <;> cases h
+      | budget s => simp
+      | fault site => simp
 
 end C05
 end Nl
